@@ -54,7 +54,9 @@ type hookBus struct {
 func newHookBus() *hookBus {
 	// points inside a critical section (sync.Once bodies, cache lock) are never used for parking
 	return &hookBus{parked: make(chan struct{}), release: make(chan struct{}),
-		skip: map[string]bool{"fail.doneClosed": true, "fail.connClosed": true, "close.doneClosed": true}}
+		skip: map[string]bool{"fail.doneClosed": true, "fail.connClosed": true, "close.doneClosed": true,
+			// MarkUnavailable is also called by closeAll under the cache lock
+			"info.markUnavailable": true}}
 }
 
 func (b *hookBus) on(point string, detail string) {
